@@ -23,7 +23,8 @@ EXPLANATION = (
     ' Also: after a successful pointer read its ETag reaches the conditional write on every path; ETag reads are followed through helper functions; (R6) the fence returns decided constants only.'
     " R1 also requires the ETag read to sit on the supports_cas branch; R3 requires every pointer write's capability flag to be decided (conditional write iff supports_cas)."
     " (R7) every other function that reads the pointer's ETag and flips the pointer ties the validated version to that read; (R8) the lock owner token is a per-instance uuid4 (shared with C19.R8)."
-    ' (R9) supports_cas returns exactly the flag create_lock branches on, and read_file_with_etag takes content and ETag from ONE get_object response. Conditional expressions (`x = read() if supports_cas else NONE`) are branches; records (NamedTuple) carrying the ETag / the owner test are looked through.')
+    ' (R9) supports_cas returns exactly the flag create_lock branches on, and read_file_with_etag takes content and ETag from ONE get_object response. Conditional expressions (`x = read() if supports_cas else NONE`) are branches; records (NamedTuple) carrying the ETag / the owner test are looked through.'
+    ' (R10) validation compares the base with a fresh read under the lock on every path (C01.R2): a definition of the validated object that is not a read is a violation.')
 NOT_DECIDED = "the schedules themselves; S3's conditional-write semantics"
 
 
@@ -52,6 +53,10 @@ def check(ctx: Ctx) -> None:
         o.rule = "C08.R6"
     ctx.rule_text["C08.R6"] = ctx.rule_text.pop("C19.R4")
     ctx.floors["C08.R6"] = ctx.floors.pop("C19.R4")
+    # the conditional write protects exactly the version that was VALIDATED: if validation compares the base with anything
+    # but a fresh read under the lock (the base itself, a remembered object), a stale base is CAS-ed over a foreign commit
+    from .c01 import r2 as c01_r2
+    ctx.shared(c01_r2, "C01.R2", "C08.R10", "the version the CAS is keyed to was validated against a fresh read under the lock")
 
 
 def pin_needs_hint(ctx: Ctx, rid: str) -> None:
